@@ -2,3 +2,4 @@ import Mitx.Props.C03
 import Mitx.Props.C06
 import Mitx.Props.C10
 import Mitx.Props.C17
+import Mitx.Props.C08
